@@ -114,9 +114,7 @@ func traceOfStalled(sc *engine.Scenario, pfx string, res *engine.Result, stalls 
 		t.dg.U64(m.N)
 	}
 	t.finish()
-	if m.Spk != nil {
-		m.GB.Cleanup()
-	}
+	m.GB.Cleanup() // every run ends the way Run ends it (with or without outputs attached)
 	return t.points, t
 }
 
